@@ -24,14 +24,18 @@ CHECKS = {
           "DrandHandler (scripted client over fabricated valid chains of all 5 schemes) and Trace_HttpRelay evaluates on every observed response that a 200 is exactly one verifying beacon of the "
           "requested round with randomness = sha256(signature). gRPC PublicRand / PublicRandStream: PublicRand.tla tour on a real BeaconProcess. In-memory-store bootstrap: "
           "MemBoot.tla (storeCurrentFromPeerNetwork: first usable answer, latest-round fallback, genesis for round 0, verify before Put) with the complete catalogue of peer answers "
-          "(9 kinds per peer and request, either arrival order, 3 schemes) run on the real code and judged by Trace_MemBoot.",
+          "(9 kinds per peer and request, either arrival order, 3 schemes) run on the real code and judged by Trace_MemBoot. "
+          "Chain repair: the directed repair scenarios of SyncClient.tla (honest and lying peers, interrupted corrections) on the real SyncManager with OnlyVerifiedInOrder "
+          "(whatever a repair writes into the raw store verifies for its round).",
   "design_ref": "DESIGN.md 4 C01", "note": _TRUST, "technique": _TECH,
  },
  "C02": {
   "text": "Exhaustive TLC on Beacon.tla (heads move by one, n=3,t=2) plus " + _NET + ". Monitors on every StorePut of every node: only head+1 is stored "
           "(GapOrOutOfOrder), a stored round is never replaced by another value (Rewrite), chained link (BadLink), any two nodes agree on every round "
           "(Disagreement), and a final cursor scan of each base store is exactly 0..head with the bytes that were put; across drops, duplicates, partitions, "
-          "stop/restart, bolt trimmed/untrimmed and memdb.",
+          "stop/restart, bolt trimmed/untrimmed and memdb. Store stack: ChainStore.tla complete labelled state graph toured on the real append/scheme store stack incl. the "
+          "mutual-exclusion and failing-write races. Chain repair: interrupted corrections (context cancelled / write failing between any two store operations, 3 back-ends) on "
+          "the real SyncManager with RepairLosesRound (no stored round disappears).",
   "design_ref": "DESIGN.md 4 C02", "note": _TRUST, "technique": _TECH,
  },
  "C03": {
